@@ -87,6 +87,8 @@ def grep_gate():
                 for n, line in enumerate(src.splitlines(), 1):
                     if FORBIDDEN.search(line):
                         hits.append("%s:%d: %s" % (os.path.relpath(p, VERIF), n, line.strip()))
+    gen_extract_v()
+    gen_coqproject()
     proj = open(os.path.join(COQ, "_CoqProject")).read()
     if "-type-in-type" in proj or "-impredicative-set" in proj:
         hits.append("_CoqProject passes a forbidden flag")
